@@ -295,6 +295,8 @@ RDATA = {
 }
 
 
+B16 = [0, 1, 0x7FFF, 0x8000, 0xFFFF]
+B32 = [0, 1, 0x7FFFFFFF, 0x80000000, 0xFFFFFFFF]
 GENERIC_RDATA = {"name": _NM, "root": b"\x00", "4-octets": b"\x01\x02\x03\x04", "16-octets": bytes(range(16)), "string": b"\x03abc",
                  "empty": b"", "misfit": b"\xff\xff", "name-then-more": _NM + b"\x00\x01"}
 
@@ -384,6 +386,26 @@ def dns_specs(tier):
             out.append(spec(q=[(NAME_AB, ty, 1)], an=[(NAME_AB, ty, 1, 60, rd)]))
             if thorough:
                 out.append(spec(q=[(NAME_AB, 1, 1)], ar=[((b"c",), ty, 1, 0, rd)], compress=True))
+    # integer fields at {0, 1, largest positive signed, sign bit, all ones} - in the header, the fixed part of questions and
+    # records, and inside typed RDATA (HTTPS/SVCB priority, parameter keys and lengths, MX preference, SRV numbers, SOA numbers)
+    for v in B16:
+        out.append(spec(hdr={"id": v}, an=base_an))
+        out.append(spec(q=[(NAME_AB, 1, v)]))
+        out.append(spec(q=[(NAME_AB, v, 1)], an=[(NAME_AB, v, v, 60, b"\x00\x01")]))
+        for ty in (65, 64):
+            out.append(spec(q=[(NAME_AB, ty, 1)], an=[(NAME_AB, ty, 1, 60, struct.pack("!H", v) + b"\x00")]))          # priority, root target
+            out.append(spec(q=[(NAME_AB, ty, 1)], an=[(NAME_AB, ty, 1, 60, struct.pack("!H", v) + _NM + b"\x00\x03\x00\x02\x01\xbb")]))
+            out.append(spec(q=[(NAME_AB, ty, 1)], an=[(NAME_AB, ty, 1, 60, b"\x00\x01\x00" + struct.pack("!HH", v, 0))]))  # parameter key, empty value
+            out.append(spec(q=[(NAME_AB, ty, 1)], an=[(NAME_AB, ty, 1, 60, b"\x00\x01\x00" + struct.pack("!HH", v, 2) + b"ab")]))
+            out.append(spec(q=[(NAME_AB, ty, 1)], an=[(NAME_AB, ty, 1, 60, b"\x00\x01\x00\x00\x07" + struct.pack("!H", v) + b"ab")]))  # parameter length (mostly misfit)
+        out.append(spec(q=[(NAME_AB, 15, 1)], an=[(NAME_AB, 15, 1, 60, struct.pack("!H", v) + _NM)]))                 # MX preference
+        out.append(spec(q=[(NAME_AB, 33, 1)], an=[(NAME_AB, 33, 1, 60, struct.pack("!HHH", v, v, v) + _NM)]))          # SRV priority weight port
+    for v in B32:
+        out.append(spec(an=[(NAME_AB, 1, 1, v, RDATA[1]["fits"])]))
+        out.append(spec(q=[(NAME_AB, 6, 1)], ns=[(NAME_AB, 6, 1, v, _NM + R.wire_name((b"h",)) + struct.pack("!IIIII", v, v, v, v, v))]))
+    for n in ((0, 1, 2, 255, 256) if thorough else (0, 2, 256)):                                                         # section counts
+        out.append(spec(q=[((b"q%d" % i,), 1, 1) for i in range(n)]))
+        out.append(spec(an=[((b"r%d" % i,), 1, 1, i, RDATA[1]["fits"]) for i in range(n)]))
     for n in NAMES:
         out.append(spec(an=[(n, 1, 1, 60, RDATA[1]["fits"])]))
         if thorough:
